@@ -60,13 +60,26 @@ ApplyMove(h, m, n) ==
       [] m.v = "join"       -> Join(h[m.i], h[m.j], m.on, m.how, m.suffix)
       [] m.v = "cross_join" -> Join(h[m.i], h[m.j], <<>>, "inner", m.suffix)
       [] m.v = "union"      -> Union(h[m.i], h[m.j], m.distinct)
+      [] m.v = "transfer"   -> Transfer(h[m.i], h[m.j])
 
 Choose == /\ ~done /\ pend = None /\ Len(hist) < MaxDepth
           /\ LET ms == Moves(heap, known) IN
              \E j \in DOMAIN ms : pend' = ms[j]
           /\ UNCHANGED <<heap, nid, known, hist, done, src>>
 
-Apply == /\ pend # None
+IsObsMove(m) == m.v \in {"getname"}
+ObsValue(h, m) ==
+    CASE m.v = "getname" -> IF m.c \in VisSet(h[m.i]) THEN [ok |-> TRUE, val |-> h[m.i].nm[m.c]]
+                            ELSE [ok |-> FALSE, cls |-> "ColumnNotFoundError"]
+
+ApplyObs == /\ pend # None /\ IsObsMove(pend)
+            /\ LET r == ObsValue(heap, pend) IN
+               hist' = Append(hist, IF r.ok THEN [m |-> pend, out |-> 0, val |-> r.val]
+                                           ELSE [m |-> pend, out |-> 0, err |-> r.cls])
+            /\ pend' = None
+            /\ UNCHANGED <<heap, nid, known, done, src>>
+
+Apply == /\ pend # None /\ ~IsObsMove(pend)
          /\ LET r == ApplyMove(heap, pend, nid) IN
             IF r.ok
             THEN IF HasUndef(r.t)
@@ -89,7 +102,7 @@ Finish == /\ ~done /\ pend = None /\ Len(hist) = MaxDepth
           /\ done' = TRUE
           /\ UNCHANGED <<heap, nid, known, hist, pend, src>>
 
-Next == Choose \/ Apply \/ Finish
+Next == Choose \/ Apply \/ ApplyObs \/ Finish
 
 Spec == Init /\ [][Next]_vars
 
@@ -106,11 +119,20 @@ WF(t) == /\ VisSet(t) \subseteq Scope(t)
          /\ \A r \in 1..(Len(t.rows) - 1) : t.pcls[r] <= t.pcls[r + 1] /\ t.scls[r] <= t.scls[r + 1]
 
 ScopeWF == \A i \in DOMAIN heap : WF(heap[i])
+WF1 == \A i \in DOMAIN heap : VisSet(heap[i]) \subseteq Scope(heap[i])
+WF2 == \A i \in DOMAIN heap : DOMAIN heap[i].ty = Scope(heap[i]) /\ DOMAIN heap[i].fk = Scope(heap[i])
+WF3 == \A i \in DOMAIN heap : Distinct(NamesOf(heap[i]))
+WF4 == \A i \in DOMAIN heap : Distinct(heap[i].vis)
+WF5 == \A i \in DOMAIN heap : {heap[i].part[q] : q \in DOMAIN heap[i].part} \subseteq Scope(heap[i])
+WF6 == \A i \in DOMAIN heap : Len(heap[i].pcls) = Len(heap[i].rows) /\ Len(heap[i].scls) = Len(heap[i].rows)
+WF7 == \A i \in DOMAIN heap : \A r \in DOMAIN heap[i].rows : DOMAIN heap[i].rows[r] = Scope(heap[i])
 
 HeapAppendOnly == [][\A i \in DOMAIN heap : i \in DOMAIN heap' /\ heap'[i] = heap[i]]_vars
 
 (* the step that applies pend to heap[pend.i] and appends the result *)
 Applied == pend # None /\ Len(heap') = Len(heap) + 1
+(* observation actions never change the heap *)
+ObsPure == [][(pend # None /\ IsObsMove(pend)) => heap' = heap]_vars
 In  == heap[pend.i]
 Out == heap'[Len(heap')]
 VisData(t) == [r \in DOMAIN t.rows |-> [i \in DOMAIN t.vis |-> t.rows[r][t.vis[i]]]]
